@@ -2116,8 +2116,10 @@ func (f *File) ReadFrom(r io.Reader) (int64, error) {
 
 			// A failed write ends the transfer with its error, also when the
 			// reader has already reported the end of its input (final short chunk).
+			// It is returned as it is: a transport error that wraps io.EOF (a closed
+			// ssh channel) must not be mistaken for the end of the reader below.
 			if err2 != nil {
-				err = err2
+				return read, err2
 			}
 		}
 
